@@ -104,6 +104,13 @@ def on_input(p, r, exc, acc):
         if r["exc"] is None:
             acc.candidate(kind="no-compile-exception", input=cfg(m), detail=expect[1])
     else:
+        # the free characters of the first line may themselves spell a Mako directive (e.g. '#<%coding>...'): then a
+        # compile error / non-text nodes are legitimate; the reference tokenizer decides, and such inputs are not asserted
+        from oracles import tokenizer
+        ref = tokenizer.R(list(r["first"]) + list(expect[1]), {}, set())
+        if ref[0] != "out":
+            acc.counts["first line spells a directive: not asserted"] += 1
+            return
         if r["exc"] is not None:
             acc.candidate(kind="unexpected-compile-exception", input=cfg(m), detail=str(r["exc"])[:150])
         else:
@@ -361,6 +368,8 @@ def run(check, tier):
         for nw in range(0, 2):
             for n2 in range(0, 2):
                 if tier == "quick" and n1 + nw + n2 > 1:
+                    continue
+                if n1 == 2 and nw + n2 > 0:
                     continue
                 jobs.append(("C18-in-%d-%d-%d" % (n1, nw, n2), h_input(n1, nw, n2), on_input,
                              "input decoding, first line with %d free + separator + %d blank + %d trailing symbolic characters" % (n1, nw, n2),
